@@ -69,6 +69,20 @@ package htmldoc
 // C19: a skipped (script, style, ...) or excluded (navigation) element contributes nothing
 //@   atreturn#1 skipped_element_contributes_nothing: *elements == old(*elements) && ctx.inList == old(ctx.inList) && ctx.listOrdered == old(ctx.listOrdered) && ctx.listLevel == old(ctx.listLevel)
 //@   atreturn#2 excluded_subtree_contributes_nothing: *elements == old(*elements) && ctx.inList == old(ctx.inList) && ctx.listOrdered == old(ctx.listOrdered) && ctx.listLevel == old(ctx.listLevel)
+// every other way out of the function (headings, paragraphs, lists, tables, code, quotes: the places that emit) is
+// reached only with an open gate
+//@   atreturn#3 emits_only_through_an_open_gate: !old(n.Type == html.ElementNode && (shouldSkipElement(n.Data) || (!isnil(ctx.checker) && exclF(ctx.checker.mode, true, ctx.checker.shouldExcludeExplicit(n), ctx.checker.shouldExcludeByPattern(n), ctx.checker.shouldExcludeByLinkDensity(n)))))
+//@   atreturn#4 emits_only_through_an_open_gate: !old(n.Type == html.ElementNode && (shouldSkipElement(n.Data) || (!isnil(ctx.checker) && exclF(ctx.checker.mode, true, ctx.checker.shouldExcludeExplicit(n), ctx.checker.shouldExcludeByPattern(n), ctx.checker.shouldExcludeByLinkDensity(n)))))
+//@   atreturn#5 emits_only_through_an_open_gate: !old(n.Type == html.ElementNode && (shouldSkipElement(n.Data) || (!isnil(ctx.checker) && exclF(ctx.checker.mode, true, ctx.checker.shouldExcludeExplicit(n), ctx.checker.shouldExcludeByPattern(n), ctx.checker.shouldExcludeByLinkDensity(n)))))
+//@   atreturn#6 emits_only_through_an_open_gate: !old(n.Type == html.ElementNode && (shouldSkipElement(n.Data) || (!isnil(ctx.checker) && exclF(ctx.checker.mode, true, ctx.checker.shouldExcludeExplicit(n), ctx.checker.shouldExcludeByPattern(n), ctx.checker.shouldExcludeByLinkDensity(n)))))
+//@   atreturn#7 emits_only_through_an_open_gate: !old(n.Type == html.ElementNode && (shouldSkipElement(n.Data) || (!isnil(ctx.checker) && exclF(ctx.checker.mode, true, ctx.checker.shouldExcludeExplicit(n), ctx.checker.shouldExcludeByPattern(n), ctx.checker.shouldExcludeByLinkDensity(n)))))
+//@   atreturn#8 emits_only_through_an_open_gate: !old(n.Type == html.ElementNode && (shouldSkipElement(n.Data) || (!isnil(ctx.checker) && exclF(ctx.checker.mode, true, ctx.checker.shouldExcludeExplicit(n), ctx.checker.shouldExcludeByPattern(n), ctx.checker.shouldExcludeByLinkDensity(n)))))
+//@   atreturn#9 emits_only_through_an_open_gate: !old(n.Type == html.ElementNode && (shouldSkipElement(n.Data) || (!isnil(ctx.checker) && exclF(ctx.checker.mode, true, ctx.checker.shouldExcludeExplicit(n), ctx.checker.shouldExcludeByPattern(n), ctx.checker.shouldExcludeByLinkDensity(n)))))
+//@   atreturn#10 emits_only_through_an_open_gate: !old(n.Type == html.ElementNode && (shouldSkipElement(n.Data) || (!isnil(ctx.checker) && exclF(ctx.checker.mode, true, ctx.checker.shouldExcludeExplicit(n), ctx.checker.shouldExcludeByPattern(n), ctx.checker.shouldExcludeByLinkDensity(n)))))
+//@   atreturn#11 emits_only_through_an_open_gate: !old(n.Type == html.ElementNode && (shouldSkipElement(n.Data) || (!isnil(ctx.checker) && exclF(ctx.checker.mode, true, ctx.checker.shouldExcludeExplicit(n), ctx.checker.shouldExcludeByPattern(n), ctx.checker.shouldExcludeByLinkDensity(n)))))
+//@   atreturn#12 emits_only_through_an_open_gate: !old(n.Type == html.ElementNode && (shouldSkipElement(n.Data) || (!isnil(ctx.checker) && exclF(ctx.checker.mode, true, ctx.checker.shouldExcludeExplicit(n), ctx.checker.shouldExcludeByPattern(n), ctx.checker.shouldExcludeByLinkDensity(n)))))
+//@   atreturn#13 emits_only_through_an_open_gate: !old(n.Type == html.ElementNode && (shouldSkipElement(n.Data) || (!isnil(ctx.checker) && exclF(ctx.checker.mode, true, ctx.checker.shouldExcludeExplicit(n), ctx.checker.shouldExcludeByPattern(n), ctx.checker.shouldExcludeByLinkDensity(n)))))
+//@   atreturn#14 emits_only_through_an_open_gate: !old(n.Type == html.ElementNode && (shouldSkipElement(n.Data) || (!isnil(ctx.checker) && exclF(ctx.checker.mode, true, ctx.checker.shouldExcludeExplicit(n), ctx.checker.shouldExcludeByPattern(n), ctx.checker.shouldExcludeByLinkDensity(n)))))
 // and the walk descends only below nodes whose gate is open
 //@   callsite traverseNodeFiltered(c) requires descends_only_through_open_gates: !old(n.Type == html.ElementNode && (shouldSkipElement(n.Data) || (!isnil(ctx.checker) && exclF(ctx.checker.mode, true, ctx.checker.shouldExcludeExplicit(n), ctx.checker.shouldExcludeByPattern(n), ctx.checker.shouldExcludeByLinkDensity(n)))))
 
